@@ -35,6 +35,7 @@ def run(ctx):
     ctx.rule("R1", "finding funnel: matches come only from CombinedScan::scan over collection-selected rules, with the unused-suppression rule registered")
     ctx.rule("R2", "message funnel: rule messages are rendered only through RuleConfig::get_message")
     ctx.rule("R4", "no finding is dropped between the scan result and the listing (loops reach their emit on every iteration; pipelines have no dropping adaptor)")
+    ctx.rule("R5", "the range of a finding is the matched node's range in every listing (never the fix's range)")
     ctx.rule("R3", "LSP: stale document versions are ignored; the stored version is the one published; close removes the entry")
     fronts = [
         (r"^<ast_grep::scan::ScanWithConfig as ast_grep::utils::worker::PathWorker>::produce_item$", "get_rule_from_lang"),
@@ -185,6 +186,7 @@ def run(ctx):
         ctx.ob("R3", "on_close anchor", False, "found %d" % len(cl))
 
     r4(ctx)
+    r5(ctx)
 
 
 PP = r"^<ast_grep::print::%s as ast_grep::print::PrintProcessor<alloc::vec::Vec<u8>>>::%s$"
@@ -272,3 +274,41 @@ def r4(ctx):
                        "findings pass through %s on their way to %s: some are never listed by this front end" % (drop, sink), where=c.fn.loc(c.line))
     ctx.floor("R4", "finding loops", nloops, 9)
     ctx.floor("R4", "finding pipelines", npipes, 7)
+
+
+def r5(ctx):
+    prog = ctx.prog
+    sites = (
+        (r"^ast_grep_lsp::utils::convert_match_to_diagnostic$", r"lsp_types::Diagnostic$", "convert_node_to_range", 1),
+        (r"^ast_grep::print::json_print::MatchJSON::<'a>::new$", r"json_print::MatchJSON$", "get_range", 1),
+    )
+    for fpat, adt, helper, node_param in sites:
+        f = ctx.anchor("R5", fpat)
+        if not f:
+            continue
+        aggs = [(g, st) for g, bi, si, st in prog.aggregates_of(adt) if g is f or g.root == f.id]
+        ok = bool(aggs)
+        detail = "no %s literal found" % adt
+        for g, st in aggs:
+            ops = dict(zip(st[2][1]["fields"], st[2][2]))
+            if "range" not in ops or ops["range"][0] == "k":
+                ok, detail = False, "range field is a constant / missing"
+                continue
+            roots = ultimate_roots(prog, g, ops["range"], set())
+            bad = []
+            for ff, o in roots:
+                if o.kind == "call" and o.ref.name == helper and o.ref.args:
+                    src = ultimate_roots(prog, ff, o.ref.args[0], TRANSPARENT | {"deref"})
+                    if all(f2 is f and o2.kind == "param" and o2.ref == node_param for f2, o2 in src) and src:
+                        continue
+                bad.append(describe_origin(ff, o))
+            if bad or not roots:
+                ok = False
+            detail = "range = %s(matched node)" % helper if not bad else "the finding's range can also come from %s — e.g. the range a fix replaces, which differs from the matched node for fixes with expandStart/expandEnd: this front end then lists other ranges than the others" % bad[:3]
+        ctx.ob("R5", "%s/range is the matched node's" % f.name, ok, detail, where=f.loc())
+    # the diff variant of the JSON record keeps the match's range too: it is built on top of MatchJSON::new
+    df = ctx.anchor("R5", r"^ast_grep::print::json_print::MatchJSON::<'a>::diff$")
+    if df:
+        news = [c for c in df.calls if c.best.endswith("MatchJSON::<'a>::new")]
+        wr = [1 for bi in df.live_blocks for st in df.blocks[bi]["s"] if st[0] == "A" and "range" in field_path(st[1][1]) and ".range|ast_grep::print::json_print::MatchJSON" in repr(st[1])]
+        ctx.ob("R5", "MatchJSON::diff keeps the match's range", bool(news) and not wr, "diff() starts from MatchJSON::new(node_match) and does not overwrite `range` (replacement offsets live in their own field)", where=df.loc())
